@@ -380,6 +380,10 @@ class Core(composites.Composite):
         if discharge and self._trackAssems:
             if self.parent.excore.get("sfp") is not None:
                 self.parent.excore.sfp.add(a1)
+                # a stationary block handed over by a fresh incoming assembly was never in the core:
+                # register it, the pool assembly and its blocks stay reachable by name
+                for b in a1:
+                    self.blocksByName[b.getName()] = b
             else:
                 runLog.info("No Spent Fuel Pool is found, can't track assemblies.")
         else:
